@@ -145,11 +145,15 @@ def check_unit(case, rec):
 
 @st.composite
 def payload_case(draw):
-    case = draw(G.unit_case(CMDS, max_rank=3, max_cells=30, two_distinct=True))
+    case = draw(G.unit_case(CMDS, max_rank=3, max_cells=30, two_distinct=True, dtypes=("float64", "int64", "float64", "int64", "float32", "int32")))
     p2 = []
     for spec in case["arrays"]:
         k = sum(spec["mask"]) if spec["mask"] is not None else 0
         pool = G.INT_PAYLOADS if spec["dtype"].startswith("int") else G.FLOAT_PAYLOADS
+        if spec["dtype"] == "int32":
+            pool = [x for x in pool if abs(x) < 2 ** 31]
+        if spec["dtype"] == "float32":
+            pool = [x for x in pool if not (abs(x) > 3e38 and abs(x) != float("inf"))]
         extra = [x for x, m in zip(spec["data"], spec["mask"] or []) if not m][:3]
         p2.append(draw(st.lists(st.sampled_from(pool + extra), min_size=k, max_size=k)))
     case["payloads2"] = p2
